@@ -713,7 +713,9 @@ func (p *BinaryProtocol) WriteBaseTypeWithDesc(desc *proto.TypeDescriptor, val i
 				}
 			}
 		}
-		p.WriteString(v)
+		if err := p.WriteString(v); err != nil {
+			return err
+		}
 	case proto.BYTE:
 		v, ok := val.([]byte)
 		if !ok {
@@ -1235,11 +1237,15 @@ func (p *BinaryProtocol) ReadBaseTypeWithDesc(desc *proto.TypeDescriptor, hasMes
 				if _, moveTagErr := p.next(tagLen); moveTagErr != nil {
 					return nil, moveTagErr
 				}
-				p.Skip(wireType, false)
+				if skipErr := p.Skip(wireType, false); skipErr != nil {
+					return nil, skipErr
+				}
 				continue
 			}
 			if !field.IsList() && !field.IsMap() {
-				p.next(tagLen)
+				if _, moveTagErr := p.next(tagLen); moveTagErr != nil {
+					return nil, moveTagErr
+				}
 			}
 			// sub message has message length, must be true
 			hasMsgLen := true
